@@ -90,10 +90,12 @@ func errorsAs(fr *frame, args []value) value {
 	for depth := 0; err.t != nil && depth < 32; depth++ {
 		if it, ok := elem.Underlying().(*types.Interface); ok {
 			if m, _ := types.MissingMethod(err.t, it, true); m == nil {
+				fr.i.noteWrite(cell)
 				*cell = err
 				return true
 			}
 		} else if types.Identical(err.t, elem) {
+			fr.i.noteWrite(cell)
 			*cell = err.v
 			return true
 		}
